@@ -743,6 +743,19 @@ class C10(ClientProp):
                     ops.append({"op": "get_schedules", "a": {"zone": r2}, "tick": later,
                                 "replies": [login(rng), {"t": "listing", "seed": rng.randrange(1 << 30)}]})
                     out.append(one(rng, 1, ops, zone=z, t0=float(now) + rng.choice(SECOND_OFFSETS)))
+        # listings taken after 2038-01-19 (the 32-bit fields hold instants up to 2106): records around "now" and records that
+        # straddle the 2^31 boundary seen from a host in January 2038
+        for z in zones[:4]:
+            for (y, m, d) in ((2038, 1, 19), (2038, 1, 20), (2040, 3, 25), (2071, 7, 1), (2100, 3, 1), (2105, 12, 31)):
+                now = local_instant(z, y, m, d, rng.choice([0, 3, 12, 23]), 15)
+                ops = []
+                for _ in range(ctx.pick(8, 80)):
+                    nrec = rng.randrange(1, 9)
+                    recs = [{"id": rng.choice([k, rng.randrange(256)]), "mask": rng.choice([0, 2, 84, 254, 2 * rng.randrange(128)]), "enabled": rng.randrange(2),
+                             "start": now + rng.randrange(-2 * 86400, 2 * 86400), "end": now + rng.randrange(-2 * 86400, 2 * 86400)} for k in range(nrec)]
+                    ops.append({"op": "get_schedules", "a": {"zone": [], "span": 4},
+                                "replies": [login(rng), {"t": "sched", "seed": rng.randrange(1 << 30), "recs": recs}]})
+                out.append(one(rng, 1, ops, zone=z, t0=float(now) + rng.choice(SECOND_OFFSETS)))
         return out
 
     def owns(self, clause):
